@@ -17,6 +17,7 @@ int main(int argc, char **argv) {
   std::string txt = read_all(argv[1]); size_t nl = txt.find_last_of('{', txt.size()); (void) nl;
   Json plan = Json::parse(txt.substr(txt.find('{')));
   if (!plan.has("prog")) { fprintf(stderr, "plan has no program\n"); return 3; }
+  if (prog::prog_has_two_results(plan.at("prog"))) { fprintf(stderr, "two-result functions: no C form\n"); return 3; }
   const Json &prog = plan.at("prog"); std::string out = argv[2];
   auto sigs = prog::signatures(prog);
   std::map<std::string, const Json *> defs; std::map<const Json *, std::string> modof;
